@@ -30,6 +30,7 @@ from openfisca_core.variables import Variable
 from openfisca_core.periods import DateUnit
 from openfisca_core.indexed_enums import Enum, EnumArray
 from openfisca_core.holders import set_input_divide_by_period, set_input_dispatch_by_period
+from openfisca_core.simulations import calculate_output_add, calculate_output_divide
 from openfisca_core import periods
 
 from openfisca_core.populations import ADD, DIVIDE
@@ -129,6 +130,9 @@ def pref_src(pref) -> str:
         return f"period.offset({pref[1]}, {pref[2]!r})"
     if pref[0] == "fixed":
         return f"periods.period({pref[1]!r})"
+    if pref[0] == "win":
+        # the n months (or days, or years) ending with the formula's own period
+        return f"periods.Period((periods.DateUnit({pref[2]!r}), period.start.offset({-(pref[1] - 1)}, {pref[2]!r}), {pref[1]}))"
     raise ValueError(pref)
 
 
@@ -271,6 +275,8 @@ def variable_src(world, var, partial=None) -> str:
         lines.append(f"    end = {var['end']!r}")
     if var.get("set_input"):
         lines.append(f"    set_input = set_input_{var['set_input']}_by_period")
+    if var.get("calculate_output"):
+        lines.append(f"    calculate_output = calculate_output_{var['calculate_output']}")
     lines.append("")
     out = "\n".join(lines) + "\n"
     if var.get("neutralized"):
